@@ -1,7 +1,7 @@
 (* Dispatcher for the correspondence check: a case is a list of numbers whose head selects the
    engine; the result is the list of numbers the implementation must print for the same case. *)
 From Coq Require Import List NArith.
-From HecsV Require Import Model.EntityBits Model.Atomic Model.WorldRun Model.ReserveRun Model.Tracker.
+From HecsV Require Import Base.ListN Model.EntityBits Model.Atomic Model.WorldRun Model.ReserveRun Model.Tracker.
 Import ListNotations.
 Open Scope N_scope.
 
@@ -21,5 +21,11 @@ Definition run_case (c : list N) : list N :=
   (* worlds constructed concurrently have distinct ids, so a prepared query moved between them is
      never stale (c17_fresh assumes distinct world ids) *)
   | 17 :: _ => [0]
+  (* reservations at the end of the 32-bit id space: nlive entities, one lazy reserve_entities(2^32-1-gap), then k
+     reserve_entity calls: the j-th gets id nlive + (2^32-1-gap) + j with generation 1 while that fits 32 bits, and
+     panics ("too many entities") afterwards (0 in the observation) *)
+  | 71 :: nlive :: gap :: k :: _ =>
+      map (fun j => let id := nlive + (4294967295 - gap) + j in
+                    if N.ltb id 4294967296 then id + 4294967296 else 0) (seqN 0 k)
   | _ => []
   end.
